@@ -125,7 +125,7 @@ def _appends(f, listname):
     return out
 
 
-def deporder(repo):
+def deporder(repo, clauses=("text", "ok")):
     res = RuleResult("R-DEPORDER")
     m, f, cls_site = _find_struct_generator(repo)
     # the struct_text_stream site
@@ -177,6 +177,10 @@ def deporder(repo):
                 "fields in dependency order", HG, f.line, f.qualname)
     res.samples = [f"{f.qualname}: decode_fields/write_fields/field_ok_checks built in fields_in_dependency_order loops"]
     res.analysed = [HG]
+    if "text" not in clauses:
+        res.findings = [x for x in res.findings if "_fields" not in x.key.rsplit("|", 2)[-2] and not x.key.endswith(("decode_fields", "write_fields"))]
+    if "ok" not in clauses:
+        res.findings = [x for x in res.findings if not x.key.endswith("field_ok_checks")]
     return res
 
 
@@ -932,4 +936,52 @@ def textname(repo):
             res.samples.append(f"{fname}: {sorted(per_template)} all use {sorted(next(iter(per_template.values())))} for ${{{slot}}}")
     res.detail = {"templates_with_text_names": sorted(slots)}
     res.analysed = [HG, TEMPLATES]
+    return res
+
+
+# ---------------------------------------------------------------------------------------------------------
+# R-NSPARSE: the namespace validator and the namespace emitter cut the attribute text into the same components
+def nsparse(repo):
+    """The words tested against the C++ reserved-word list must be the words that are later emitted as
+    `namespace <word> {`.  Both come from the `namespace` attribute's text, so the loop that tests membership in
+    the reserved-word set has to iterate the result of the same function the emitter returns."""
+    res = RuleResult("R-NSPARSE")
+    m = repo.mod(HG)
+    # emitter: the function that reads the "namespace" attribute and returns components
+    emit_fn = None
+    for f in m.top_funcs():
+        reads = any(isinstance(n, ast.Call) and (call_name(n) or "").endswith("get_attribute") and len(n.args) >= 2
+                    and isinstance(n.args[1], ast.Constant) and n.args[1].value == "namespace" for n in walk_no_nested_funcs(f.node))
+        if not reads:
+            continue
+        for n in walk_no_nested_funcs(f.node):
+            if isinstance(n, ast.Return) and isinstance(n.value, ast.Call) and isinstance(n.value.func, ast.Name):
+                emit_fn = (f, n.value.func.id)
+    if emit_fn is None:
+        raise AnalysisError("header_generator: the function returning the module's namespace components was not found")
+    splitter = emit_fn[1]
+    # validator: loops whose body tests membership in a *RESERVED* set
+    loops = []
+    for f in m.top_funcs():
+        for n in walk_no_nested_funcs(f.node):
+            if isinstance(n, ast.For) and isinstance(n.target, ast.Name):
+                for x in ast.walk(n):
+                    if isinstance(x, ast.Compare) and len(x.ops) == 1 and isinstance(x.ops[0], ast.In) \
+                            and isinstance(x.left, ast.Name) and x.left.id == n.target.id \
+                            and "RESERVED" in ast.unparse(x.comparators[0]).upper():
+                        loops.append((f, n))
+                        break
+    if not loops:
+        raise AnalysisError("header_generator: no loop testing namespace components against the reserved words")
+    for f, lp in loops:
+        res.instances += 1
+        it = lp.iter
+        if not (isinstance(it, ast.Call) and isinstance(it.func, ast.Name) and it.func.id == splitter):
+            res.add(f"{HG}|{f.name}|components", f"{f.name} tests `{ast.unparse(it)}` against the reserved words, but the namespace that is "
+                    f"emitted is cut into components by {splitter}() (in {emit_fn[0].name}): a keyword component that the two cut "
+                    "differently (e.g. with blanks around `::`) passes validation and is emitted as `namespace <keyword> {`",
+                    HG, lp.lineno, f.name)
+        else:
+            res.samples.append(f"{f.name}: reserved-word test over {splitter}(...), as emitted by {emit_fn[0].name}")
+    res.analysed = [HG]
     return res
